@@ -171,8 +171,40 @@ var nan = math.NaN()
 var pinf = math.Inf(+1)
 var ninf = math.Inf(-1)
 
+// maxJSONDepth bounds the nesting of a field value that is taken as JSON. The
+// validator recurses once per level, and a value of millions of opening
+// brackets would use up the stack of the process. A deeper value is a string.
+const maxJSONDepth = 512
+
+func jsonTooDeep(data string) bool {
+	depth, instr := 0, false
+	for i := 0; i < len(data); i++ {
+		switch c := data[i]; {
+		case instr:
+			if c == '\\' {
+				i++
+			} else if c == '"' {
+				instr = false
+			}
+		case c == '"':
+			instr = true
+		case c == '[' || c == '{':
+			depth++
+			if depth > maxJSONDepth {
+				return true
+			}
+		case c == ']' || c == '}':
+			depth--
+		}
+	}
+	return false
+}
+
 func ValueOf(data string) Value {
 	data = strings.TrimSpace(data)
+	if jsonTooDeep(data) {
+		return Value{kind: String, data: data}
+	}
 	num, err := strconv.ParseFloat(data, 64)
 	if err == nil {
 		if math.IsInf(num, 0) {
